@@ -64,9 +64,12 @@ def battery(step, world, model, res, op, status, exc):
     # commonancestors: zero, one, all pairs, sampled triples/quadruples
     rng = random.Random(res.cfg_qseed + step)
     groups = [(), (rng.randrange(n),)]
-    for i in range(n):
-        for j in range(n):
-            groups.append((i, j))
+    if n <= 16:
+        for i in range(n):
+            for j in range(n):
+                groups.append((i, j))
+    else:
+        groups.extend((rng.randrange(n), rng.randrange(n)) for _ in range(200))
     for _ in range(n):
         groups.append(tuple(rng.randrange(n) for _ in range(rng.choice((3, 3, 4)))))
     for g in groups:
